@@ -781,6 +781,7 @@ func cmdRun(args []string) int {
 	var tooling []string
 	deaths := 0
 	slowSkipped := 0
+	var slowNotes []string // budget effects, reported in the evidence, not a tooling failure
 	exploreStart := time.Now()
 	deadline := exploreStart.Add(time.Duration(t.Budget) * time.Second)
 	nw := runtime.NumCPU()
@@ -807,7 +808,7 @@ func cmdRun(args []string) int {
 					if r.slow && r.hasLast {
 						// too slow to finish within the watchdog, but not stuck: skip the seed, say so
 						mu.Lock()
-						tooling = append(tooling, fmt.Sprintf("seed %d: abandoned as too slow (the scheduler was still taking steps)", r.lastRun))
+						slowNotes = append(slowNotes, fmt.Sprintf("seed %d: abandoned as too slow (the scheduler was still taking steps)", r.lastRun))
 						slowSkipped++
 						mu.Unlock()
 						from = r.lastRun + 1
@@ -985,7 +986,7 @@ func cmdRun(args []string) int {
 			ev.Known = append(ev.Known, map[string]any{"signature": f.Signature, "what_fails": f.WhatFails, "seen_runs": knownSeen[f.Signature]})
 		}
 	}
-	ev.finish(b, t, exploreSec, time.Since(t0).Seconds(), skipped*t.Chunk, tooling)
+	ev.finish(b, t, exploreSec, time.Since(t0).Seconds(), skipped*t.Chunk, append(append([]string{}, tooling...), slowNotes...))
 	if len(tooling) > 0 {
 		for i, tl := range tooling {
 			if i < 5 {
